@@ -25,7 +25,7 @@ DEFAULT_FLAGS = dict(
     internal=True, functions=True, calls=True, intrinsics=True,
     io_in_kernel=False, pragmas=False, comments=True, mixed_case=False,
     continuation=False, semicolons=False, long_expr=False,
-    associate_expr_complex=False, named_cycle_exit=False, double_not=False,
+    associate_expr_complex=False, named_cycle_exit=False, double_not=False, named_if=False, quoted_strings=False,
     kinds_module=True, single=False, optional_args=False, strings=False,
     max_stmts=14, max_depth=3, expr_depth=3,
 )
@@ -502,16 +502,21 @@ class ProgGen:
     def stmt_if(self, ind, depth, loop_label=None):
         rng = self.rng
         self.features.add('if')
-        out = [f'{ind}if ({self.ex.log_expr(self.env, 2)}) then']
+        nm = ''
+        if self.flags.get('named_if') and rng.random() < 0.35:
+            self.labels += 1
+            nm = f'cnd{self.labels}'
+            self.features.add('named_if')
+        out = [f"{ind}{nm + ': ' if nm else ''}if ({self.ex.log_expr(self.env, 2)}) then"]
         out += self.block(ind + '  ', depth - 1, rng.randint(1, 2), loop_label)
-        for _ in range(rng.choice([0, 0, 1, 2])):
+        for _ in range(rng.choice([0, 0, 1, 2, 3] if nm else [0, 0, 1, 2])):
             self.features.add('else_if')
-            out.append(f'{ind}else if ({self.ex.log_expr(self.env, 1)}) then')
+            out.append(f"{ind}else if ({self.ex.log_expr(self.env, 1)}) then{' ' + nm if nm else ''}")
             out += self.block(ind + '  ', depth - 1, rng.randint(1, 2), loop_label)
         if rng.random() < 0.6:
-            out.append(f'{ind}else')
+            out.append(f"{ind}else{' ' + nm if nm else ''}")
             out += self.block(ind + '  ', depth - 1, rng.randint(1, 2), loop_label)
-        out.append(f'{ind}end if')
+        out.append(f"{ind}end if{' ' + nm if nm else ''}")
         return out
 
     def stmt_inline_if(self, ind, loop_label=None):
@@ -714,6 +719,11 @@ class ProgGen:
         self.features.add('print_in_kernel')
         sc = self.env.scalars('real') + self.env.scalars('int')
         v = self.rng.choice(sc)
+        if self.flags.get('quoted_strings') and self.rng.random() < 0.5:
+            self.features.add('quoted_string_literal')
+            lit = self.rng.choice(["'can''t stop'", "'a ''quoted'' word'", "'say \"hi\" now'", "\"it's fine\"", "''''",
+                                   "'trailing quote'''", "'two '''' quotes'"])
+            return [f"{ind}print '(A)', {lit}"]
         if v.typ == 'real':
             return [f"{ind}print '(A,ES24.16)', 'dbg {v.name}', {v.ref}"]
         return [f"{ind}print '(A,I0)', 'dbg {v.name} ', {v.ref}"]
